@@ -1,13 +1,16 @@
 // C47: schedule(f, ForceQueuingTag) / scheduleBulk(n, gen, ForceQueuingTag) on a ThreadPool, TaskSet or
 // ConcurrentTaskSet whose pool has >= 1 thread never runs the functor before returning to the caller.
-// One call of the real entry point (VF_API) from a symbolic pre-state of the real pool object.
+// One call of a real entry point (group VF_GROUP, member chosen symbolically) from a symbolic pre-state of the real pool object.
 #include "pool_kit.h"
 
 #ifndef VF_N
 #define VF_N 1
 #endif
-#ifndef VF_API
-#define VF_API 0
+#ifndef VF_GROUP
+#define VF_GROUP 0
+#endif
+#ifndef VF_COUNT
+#define VF_COUNT 2
 #endif
 #ifndef VF_MQ_CAP
 #define VF_MQ_CAP 4
@@ -35,7 +38,7 @@ extern "C" void vf_main() {
   pk::symbolic_sleepers(pool, VF_N);
   pk::symbolic_load(pool, VF_N);
   for (unsigned s = 0; s < VF_N; ++s) {
-    pk::fill_steal_ring(pool, s, vf_range_u32(0, 4), 4);  // 4 = full (DISPENSO_TUNE_STEAL_RING_SHARING=1)
+    pk::fill_steal_ring(pool, s, vf_range_u32(0, 4));  // 4 = full (DISPENSO_TUNE_STEAL_RING_SHARING=1)
   }
   pk::fill_queue(pool, 1);  // one older task in the central queue
   pk::symbolic_caller(pool, wtok, VF_N);
@@ -52,39 +55,47 @@ extern "C" void vf_main() {
   size_t expected = 1;
   bool canceledBulk = false;
 
-  // ---- the call ------------------------------------------------------------------------------
-#if VF_API == 0
-  pool.schedule(Fn(), ForceQueuingTag());
-#elif VF_API == 1
-  pool.schedulePlaced(Fn(), ForceQueuingTag());
-#elif VF_API == 2
-  if (vf_nondet_bool()) {
-    pool.schedule(*wtok, Fn(), ForceQueuingTag());
-  } else {
-    pool.schedulePlaced(*wtok, Fn(), ForceQueuingTag());
+  // ---- the call (entry point chosen symbolically inside the instance's group) -----------------
+#if VF_GROUP == 0
+  switch (vf_range_u32(0, 3)) {
+    case 0: pool.schedule(Fn(), ForceQueuingTag()); break;
+    case 1: pool.schedulePlaced(Fn(), ForceQueuingTag()); break;
+    case 2: pool.schedule(*wtok, Fn(), ForceQueuingTag()); break;
+    default: pool.schedulePlaced(*wtok, Fn(), ForceQueuingTag()); break;
   }
-#elif VF_API == 3 || VF_API == 4
-  TaskSet& ts = *new TaskSet(pool, (ssize_t)vf_range_u32(1, 8));
-  ts.outstandingTaskCount_.store((ssize_t)vf_range_u32(0, 1u << 20), std::memory_order_relaxed);
-  ts.canceled_.store(vf_nondet_bool(), std::memory_order_relaxed);
-#if VF_API == 3
-  ts.schedule(Fn(), ForceQueuingTag());
 #else
-  expected = (size_t)vf_range_u32(0, 3);
-  canceledBulk = ts.canceled();
-  ts.scheduleBulk(expected, Gen(), ForceQueuingTag());
-#endif
-#elif VF_API == 5 || VF_API == 6
-  TaskCost cost = vf_nondet_bool() ? TaskCost::kHeavy : TaskCost::kLightweight;
-  ConcurrentTaskSet& ts = *new ConcurrentTaskSet(pool, cost, (ssize_t)vf_range_u32(1, 8));
-  ts.outstandingTaskCount_.store((ssize_t)vf_range_u32(0, 1u << 20), std::memory_order_relaxed);
-  ts.canceled_.store(vf_nondet_bool(), std::memory_order_relaxed);
-#if VF_API == 5
-  ts.schedule(Fn(), ForceQueuingTag());
+  const ssize_t mult = (ssize_t)vf_range_u32(1, 8);
+  const ssize_t outstanding = (ssize_t)vf_range_u32(0, 1u << 20);
+  const bool canceled = vf_nondet_bool();
+  const bool useConcurrent = vf_nondet_bool();
+  TaskSet* ts = nullptr;
+  ConcurrentTaskSet* cts = nullptr;
+  if (useConcurrent) {
+    TaskCost cost = vf_nondet_bool() ? TaskCost::kHeavy : TaskCost::kLightweight;
+    cts = new ConcurrentTaskSet(pool, cost, mult);
+    cts->outstandingTaskCount_.store(outstanding, std::memory_order_relaxed);
+    cts->canceled_.store(canceled, std::memory_order_relaxed);
+  } else {
+    ts = new TaskSet(pool, mult);
+    ts->outstandingTaskCount_.store(outstanding, std::memory_order_relaxed);
+    ts->canceled_.store(canceled, std::memory_order_relaxed);
+  }
+#if VF_GROUP == 1
+  if (useConcurrent) {
+    cts->schedule(Fn(), ForceQueuingTag());
+  } else {
+    ts->schedule(Fn(), ForceQueuingTag());
+  }
 #else
-  expected = (size_t)vf_range_u32(0, 3);
-  canceledBulk = ts.canceled();
-  ts.scheduleBulk(expected, Gen(), ForceQueuingTag());
+  // bulk: the count is an instance parameter (a symbolic count makes the element count of the queue
+  // model symbolic, and a switch over constant call sites multiplies the wake loops: both measured > 10 min)
+  canceledBulk = canceled;
+  expected = VF_COUNT;
+  if (useConcurrent) {
+    cts->scheduleBulk((size_t)VF_COUNT, Gen(), ForceQueuingTag());
+  } else {
+    ts->scheduleBulk((size_t)VF_COUNT, Gen(), ForceQueuingTag());
+  }
 #endif
 #endif
 
@@ -103,14 +114,14 @@ extern "C" void vf_main() {
   }
   // coverage markers (decided by the witness twin; spec: must_reach all)
   if (q1 == q0 + 1) vf_reach("functor placed in the central queue");
-#if VF_API == 1 || VF_API == 2 || VF_API == 5
+#if VF_GROUP == 0 || VF_GROUP == 1
   if (s1 == s0 + 1) vf_reach("functor pushed to the steal ring of a claimed sleeper");
   if (anyStealFull && q1 == q0 + 1 && pool.wakeState_.load()->totalSleeping() > 0) {
     vf_reach("sleeper present, a steal ring full, functor in the central queue");
   }
 #endif
-#if VF_API == 4 || VF_API == 6
-  if (expected == 3 && q1 == q0 + 3) vf_reach("bulk of 3 queued");
+#if VF_GROUP == 2
+  if (q1 == q0 + VF_COUNT) vf_reach("whole bulk queued");
   if (canceledBulk && expected > 0 && q1 == q0) vf_reach("canceled set: bulk dropped");
 #endif
 }
